@@ -115,6 +115,10 @@ def run_concrete(fn, args):
         if type(e).__name__ in raises:
             return 'HOLDS', 'admitted exception %s' % type(e).__name__
         import traceback
+        frames = traceback.extract_tb(e.__traceback__)
+        if not any(f.filename.startswith('/repo/') for f in frames):
+            # the exception never passed through the code under test: a bug of the harness itself
+            return 'HARNESS', 'lemma code raised %s: %s\n%s' % (type(e).__name__, e, traceback.format_exc(limit=6))
         return 'FAILS', 'raised %s: %s\n%s' % (type(e).__name__, e, traceback.format_exc(limit=6))
     if ret:
         return 'HOLDS', 'returned %r' % (ret,)
